@@ -40,6 +40,25 @@ pub fn run_histories(aspects_oneshot: i64, aspects_inc: i64, fixtures_too: bool)
 			eval_case("incremental", o_incremental, &bytes, &p, || abs.describe(), local);
 		}
 	});
+	{
+		// long games
+		let longs = long_replays(cx.quick());
+		par_each(longs.into_iter(), |abs, local| {
+			let bytes = Arc::new(record(&abs).doc.assemble());
+			let label = format!("long game v{}.{}.{} {} frames", abs.ver.0, abs.ver.1, abs.ver.2, abs.frames.len());
+			if aspects_oneshot != 0 {
+				let mut p = P { class: "long-game", ..Default::default() };
+				p.n[0] = aspects_oneshot;
+				eval_case("model", o_model, &bytes, &p, || label.clone(), local);
+			}
+			if aspects_inc != 0 {
+				let mut p = P { class: "long-game", ..Default::default() };
+				p.n[0] = aspects_inc | A_LASTONLY;
+				p.n[4] = -1;
+				eval_case("incremental", o_incremental, &bytes, &p, || label.clone(), local);
+			}
+		});
+	}
 	if fixtures_too {
 		let fx: Vec<_> = fixtures().into_iter().filter(|f| f.rg.is_some()).collect();
 		cx.note("fixture_replays_checked", json!(fx.len()));
